@@ -1,5 +1,139 @@
-"""Kani harness runner (filled in below)."""
+"""Kani harness runner: real crates (path deps on /repo), one cargo-kani invocation per harness group."""
+import os
+import re
+import shutil
+import subprocess
+import time
+
+from .expand import VERIF, REPO
+
+KDIR = os.path.join(VERIF, "kani")
+KTARGET = os.path.join(VERIF, "build", "kani")
+
+# group -> dict(filter=<--harness pattern>, bounded=<None or description>, props=[...])
+GROUPS = {
+    "dtype_isnone": dict(filter="k_dtype::isnone_", bounded=None),
+    "dtype_cast": dict(filter="k_dtype::cast_", bounded=None),
+    "dtype_sortcmp": dict(filter="k_dtype::sortcmp_", bounded=None),
+}
 
 
-def run_harnesses(prop, harnesses, tier):
-    return dict(undecided=[], failed=[], checks=0, cmds=[], nharness=0, wall=0, covers=None, bounded=[], samples=[])
+def _prepare():
+    lock_src = os.path.join(REPO, "Cargo.lock")
+    lock_dst = os.path.join(KDIR, "Cargo.lock")
+    if not os.path.exists(lock_dst):
+        shutil.copy(lock_src, lock_dst)
+
+
+def _run(filters, extra=None, timeout=3600, jobs=16):
+    cmd = ["cargo", "kani", "--output-format", "terse", "--target-dir", KTARGET, "-j", str(jobs),
+           "-Z", "function-contracts", "-Z", "stubbing"]
+    for f in filters:
+        cmd += ["--harness", f]
+    if extra:
+        cmd += extra
+    env = dict(os.environ, CARGO_NET_OFFLINE="true")
+    t0 = time.time()
+    try:
+        p = subprocess.run(cmd, cwd=KDIR, env=env, capture_output=True, text=True, timeout=timeout)
+        out = p.stdout + "\n" + p.stderr
+        rc = p.returncode
+    except subprocess.TimeoutExpired as e:
+        out = (e.stdout or "") + "\nTIMEOUT"
+        rc = -9
+    return " ".join(cmd), rc, out, time.time() - t0
+
+
+def parse(out):
+    """-> list of dict(harness, ok, failed, checks, failed_checks, covers_sat, covers_total, text).
+    Handles both the sequential format and the `-j N` format (`Thread k: Checking harness ..`, `Thread k:` result blocks)."""
+    cur = {}      # thread -> harness name
+    blocks = []   # (harness, [lines])
+    active = None
+    for ln in out.splitlines():
+        m = re.match(r"^(?:Thread (\d+): )?Checking harness (.+?)\.\.\.", ln)
+        if m:
+            th = m.group(1) or "-"
+            cur[th] = m.group(2).strip()
+            if m.group(1) is None:
+                blocks.append((cur[th], []))
+                active = blocks[-1][1]
+            else:
+                active = None
+            continue
+        m = re.match(r"^Thread (\d+): ?$", ln.rstrip())
+        if m:
+            th = m.group(1)
+            blocks.append((cur.get(th, "?"), []))
+            active = blocks[-1][1]
+            continue
+        if ln.startswith("Manual Harness Summary") or ln.startswith("Complete - "):
+            active = None
+            continue
+        if active is not None:
+            active.append(ln)
+    res = []
+    for name, lines in blocks:
+        part = "\n".join(lines)
+        m = re.search(r"\*\* (\d+) of (\d+) failed", part)
+        c = re.search(r"\*\* (\d+) of (\d+) cover properties satisfied", part)
+        ok = "VERIFICATION:- SUCCESSFUL" in part
+        failed = "VERIFICATION:- FAILED" in part
+        res.append(dict(harness=name, ok=ok, failed=failed,
+                        checks=int(m.group(2)) if m else 0, failed_checks=int(m.group(1)) if m else 0,
+                        covers_sat=int(c.group(1)) if c else 0, covers_total=int(c.group(2)) if c else 0,
+                        text=part[:6000]))
+    return res
+
+
+def playback(harness):
+    """re-run one failed harness with concrete playback to obtain the counterexample values"""
+    cmd, rc, out, wall = _run([harness], extra=["--exact", "-Z", "concrete-playback", "--concrete-playback=print"], timeout=1800, jobs=1)
+    m = re.search(r"```\n(.*?)```", out, flags=re.S)
+    vals = re.findall(r"//\s*(.+)\n\s*vec!\[([^\]]*)\]", out)
+    return dict(found=bool(m or vals), concrete_playback_test=(m.group(1) if m else None),
+                values=[dict(value=a.strip(), bytes=b.strip()) for a, b in vals][:16],
+                note="values are Kani's concrete counterexample for the harness inputs; the harness calls the real /repo code")
+
+
+def run_harnesses(prop, groups, tier):
+    _prepare()
+    undecided, failed, samples, bounded, cmds = [], [], [], [], []
+    checks = nh = 0
+    covers = dict(satisfied=0, total=0)
+    t0 = time.time()
+    filters = [GROUPS[g]["filter"] for g in groups]
+    cmd, rc, out, wall = _run(filters)
+    cmds.append(cmd)
+    res = parse(out)
+    if rc == -9:
+        undecided.append(f"kani timeout for {groups}")
+    if not res:
+        undecided.append(f"kani produced no harness results for {groups} (build failure?): {out[-1500:]}")
+    for g in groups:
+        if GROUPS[g].get("bounded"):
+            bounded.append(dict(group=g, bound=GROUPS[g]["bounded"]))
+    for r in res:
+        nh += 1
+        checks += r["checks"]
+        covers["satisfied"] += r["covers_sat"]
+        covers["total"] += r["covers_total"]
+        if not r["ok"] and not r["failed"]:
+            undecided.append(f"kani harness {r['harness']} gave no verdict")
+            continue
+        if r["ok"] and r["covers_sat"] < r["covers_total"]:
+            undecided.append(f"kani harness {r['harness']}: {r['covers_total'] - r['covers_sat']} cover(s) unsatisfied (vacuous assumptions?)")
+        if r["failed"]:
+            fc = re.findall(r"Failed Checks: (.*)", r["text"])
+            # unwinding / unsupported-feature failures are tool limits, not violations
+            if any("unwinding assertion" in x or "not currently supported" in x for x in fc):
+                undecided.append(f"kani harness {r['harness']}: {fc[0]}")
+                continue
+            w = playback(r["harness"]) if len(failed) < 2 else dict(found=False, note="playback limited to the first two failed harnesses of a run")
+            failed.append(dict(oid=f"kani.{r['harness']}", harness=r["harness"], summary="; ".join(fc[:3]),
+                               output=r["text"], witness=w))
+        elif len(samples) < 6:
+            samples.append(dict(kind="kani harness", harness=r["harness"], checks=r["checks"],
+                                covers=f"{r['covers_sat']}/{r['covers_total']}"))
+    return dict(undecided=undecided, failed=failed, checks=checks, cmds=cmds, nharness=nh, wall=round(time.time() - t0, 1),
+                covers=covers, bounded=bounded, samples=samples)
